@@ -151,7 +151,7 @@ def judge(ctx, key, out, exp, wit):
 
 def run_main(ctx):
     rng = ctx.rng
-    for i in range(ctx.n(6400, 150000)):
+    for i in range(ctx.n(6400, 600000)):
         table, lists, cfg = make_case(rng)
         n = len(lists[0]['items'])
         if i % 9 == 4:
@@ -219,7 +219,7 @@ def run_forms(ctx):
     from mitxgraders import SingleListGrader, StringGrader
     rng = ctx.rng
     ident = {(e, e): 1 for e in ALPHA}
-    for i in range(ctx.n(3200, 40000)):
+    for i in range(ctx.n(3200, 160000)):
         n = rng.randint(1, 5)
         base = rng.sample(ALPHA, n)
         cfg = {'ordered': rng.random() < 0.5, 'partial_credit': rng.random() < 0.7, 'length_error': False,
